@@ -206,10 +206,6 @@ func okHandler() *svcHandler {
 	}
 }
 
-func fpf(proto string) *frugal.FProtocolFactory {
-	return frugal.NewFProtocolFactory(protoFactory(proto))
-}
-
 // stubFT is an FTransport whose Request returns scripted bytes.
 type stubFT struct {
 	resp  []byte
